@@ -2,6 +2,7 @@
 #![allow(dead_code)]
 //   a5h gen <PROP> <tier> <seed> <outdir> [key=value ...]   -> ND-JSON traces + summary.json
 mod compact;
+mod geo;
 mod geom;
 mod hilbert;
 mod ids;
@@ -38,6 +39,11 @@ fn main() {
                 "C12" => hilbert::gen_c12(tier, seed, out),
                 "C14" => total::gen_c14(tier, seed, out, mc, kv.get("release").map(|s| s.as_str())),
                 "C13" => purity::gen_c13(tier, seed, out, mc),
+                "C01" => geo::gen_c01(tier, seed, out, mc),
+                "C02" => geo::gen_c02(tier, seed, out),
+                "C03" => geo::gen_c03(tier, seed, out),
+                "C04" => geo::gen_c04(tier, seed, out),
+                "C11" => geo::gen_c11(tier, seed, out, mc),
                 "C09" => ids::gen_c09(tier, seed, out, mc, true),
                 _ => {
                     eprintln!("unknown property {}", prop);
